@@ -127,9 +127,9 @@ def shard(ctx):
             prog = GB.gen_program(rng)
         if rng.random() < 0.3:
             # suppressed constants
-            prog["items"].append(("raw", "#noemit on\nhidden1 = 0x55\n.sub = 2\n#noemit off\nshown = hidden1 + 1\n"))
+            prog["items"].append(("raw", "#const(noemit) hidden1 = 0x55\n.sub = 2\nshown = hidden1 + 1\n"))
         if rng.random() < 0.25:
-            prog["items"].append(("raw", "title = \"abc\"\n.len = 3\n.inner = 4\n..deep = 5\ndebugflag = false\n.level = 2\n#noemit on\n.quiet = 9\n#noemit off\n.after = 7\n"))
+            prog["items"].append(("raw", "title = \"abc\"\n.len = 3\n.inner = 4\n..deep = 5\ndebugflag = false\n.level = 2\n#const(noemit) .quiet = 9\n.after = 7\n.here:\n..under:\n"))
         src = G.render(prog)
         if rng.random() < 0.35:
             files, roots = wrap_with_include(rng, src)
